@@ -4,8 +4,8 @@ from common import *
 import asmk
 
 PROP = "C08"
-NAMES = ["gg1", ".ll1", "sc1.ll1", "gg2"]
-OPS = ["label", "defl", "defn", "redefl", "redefn", "undef", "isdef", "use", "usefwd", "use2", "usepair"]
+NAMES = ["gg1", ".ll1", "sc1.ll1", "gg2", "st1.ll1", "st1"]
+OPS = ["label", "defl", "defn", "redefl", "redefn", "undef", "isdef", "use", "usefwd", "use2", "usepair", "struct"]
 
 class Abstract:
     """the abstract history machine: a finite map name -> expression over names/ints, with the
@@ -64,7 +64,7 @@ def run_history(hist, only_failed=False):
         else:
             etxt = "%s + 1" % arg
         if op == "label":
-            if n == "gg1" or n == "gg2":
+            if "." not in n:
                 A.ns = n
             d = A.q(n)
             lines.append(n + ":")
@@ -99,6 +99,17 @@ def run_history(hist, only_failed=False):
             if d is None: break
             e = A.inline(('add', d, 0))
             A.bytes.append(e & 255 if isinstance(e, int) else ('late', e)); A.here += 1
+        elif op == "struct":
+            # @struct NAME / ll1 <member> / @endstruct : NAME and NAME.ll1 are plain definitions like any other
+            sname = n if "." not in n else "st1"
+            kind = ["@db", "@dw", "2", "3"][(arg or 0) % 4] if isinstance(arg, int) else "@dw"
+            lines.append("@struct %s\n  ll1 %s\n@endstruct" % (sname, kind))
+            if sname in A.tab:
+                A.failed = "redefined"; break
+            if sname + ".ll1" in A.tab:
+                A.failed = "redefined"; break
+            A.tab[sname + ".ll1"] = 0
+            A.tab[sname] = {"@db": 1, "@dw": 2, "2": 2, "3": 3}[kind]
         elif op in ("use2", "usepair"):
             # one deferred expression that reaches names twice (the same name, or two names that may share a pending base)
             m = n if op == "use2" else arg
@@ -144,10 +155,12 @@ def gen_step(rng):
         arg = rng.choice([rng.randrange(0, 300), n, rng.choice(NAMES)])
     if op == "usepair":
         arg = rng.choice(NAMES)
+    if op == "struct":
+        arg = rng.randrange(4)
     return (op, n, arg)
 
 def run(ck):
-    ck.rule = ("histories over {label, @defl, @defn, @redefl, @redefn, @undef, @isdef probe, use, use-before-definition, use of one name twice / of two names in one expression} x "
+    ck.rule = ("histories over {label, @defl, @defn, @redefl, @redefn, @undef, @isdef probe, use, use-before-definition, use of one name twice / of two names in one expression, struct declaration with a @db / @dw / sized member} x "
                "{global, local, direct (the same symbol as the local), second global} names, definitions by constants and by "
                "`X + 1` (incl. self-referential @redefn X, X+1): all histories up to length 3 (quick) / 4 (thorough) with a fixed "
                "argument choice, random ones up to length 40; a probe byte per use / @isdef.  O: an abstract map machine in the driver "
@@ -161,7 +174,12 @@ def run(ck):
              [("use2", "gg1", None), ("defn", "gg1", 5)],
              [("defn", "gg2", "gg1"), ("use2", "gg2", None), ("defn", "gg1", 3)],
              [("defn", "gg2", "gg1"), ("defl", ".ll1", "gg1"), ("usepair", "gg2", ".ll1"), ("defn", "gg1", 3)],
-             [("defl", ".ll1", "gg2"), ("use2", ".ll1", None), ("use", ".ll1", None), ("defn", "gg2", 9)]]
+             [("defl", ".ll1", "gg2"), ("use2", ".ll1", None), ("use", ".ll1", None), ("defn", "gg2", 9)],
+             # structs and their fields are plain definitions: a second one is rejected whatever the member's form
+             [("defn", "st1.ll1", 7), ("use", "st1.ll1", None), ("struct", "st1", 1), ("use", "st1.ll1", None)],
+             [("defn", "st1.ll1", 7), ("struct", "st1", 0)], [("defn", "st1.ll1", 7), ("struct", "st1", 2)],
+             [("use", "gg2", None), ("defn", "gg2", 9), ("use", "gg2", None), ("struct", "gg2", 3), ("use", "gg2", None)],
+             [("label", "gg1", None), ("struct", "gg1", 1)], [("struct", "st1", 1), ("struct", "st1", 1)], [("struct", "st1", 1), ("defn", "st1", 4)]]
     L = 4 if thorough else 3
     for n in range(1, L + 1):
         for ops in itertools.product(OPS, repeat=n):
@@ -173,6 +191,8 @@ def run(ck):
                         arg = [7 + i, nm, "gg2"][i % 3] if op.startswith("re") else [7 + i, "gg2"][i % 2]
                     if op == "usepair":
                         arg = "gg2"
+                    if op == "struct":
+                        arg = i
                     h.append((op, nm, arg))
                 hists.append(h)
     ck.exhaustive = True
